@@ -9,6 +9,13 @@ TRUST = [
 ]
 
 CONFIG = {
+    "C01": {
+        "level": "exploration",
+        "assumptions": TRUST + ["data conforms to the schemas (no execution errors by construction)", "field order inside objects is not compared",
+                                "cases showing the syntactic feature of an open known finding are excluded and counted (coverage.excluded_by_gate)"],
+        "quick": {"tests": [("TestC01", 4000)], "shards": 4, "timeout": 600},
+        "thorough": {"tests": [("TestC01", 30000)], "shards": 16, "timeout": 2400},
+    },
     "C03": {
         "level": "exploration",
         "assumptions": TRUST + ["descriptions are not compared (the statement does not list them)", "worlds are mergeable by construction of the generator"],
